@@ -153,6 +153,9 @@ def check(ctx):
     repo = ctx.repo
     from . import generic as _gen
     _gen.language_traps(ctx, _gen.anchor_functions(repo, "C10"), "the property holds for every input, on every call")
+    _gen.bool_mask_dtype(ctx, _gen.module_functions(repo, "dataiter.vector", "dataiter.data_frame", "dataiter.util"),
+                         "is_na / drop_na work for vectors of every length, zero included")
+    _gen.total_functions(ctx, ["dataiter.vector.Vector.replace_na", "dataiter.vector.Vector.drop_na", "dataiter.vector.Vector.is_na"])
     from . import generic
     generic.lossy_calls(ctx, generic.module_functions(repo, "dataiter.vector"),
                         "replace_na replaces exactly the missing positions")
